@@ -749,6 +749,15 @@ fn pm_part(rep: &mut Report, thorough: bool, mat: &Material) {
             }
         }
     }
+    {
+        let mut m = ProtocolMessage::new();
+        m.set_message_part(ProtocolMessagePartKey::CurrentEpoch, "1".to_string());
+        m.set_message_part(ProtocolMessagePartKey::LatestBlockNumber, "12".to_string());
+        let mut n = ProtocolMessage::new();
+        n.set_message_part(ProtocolMessagePartKey::CurrentEpoch, "12".to_string());
+        n.set_message_part(ProtocolMessagePartKey::LatestBlockNumber, "2".to_string());
+        rep.sample(json!({"part": "pm", "a": {"current_epoch": "1", "latest_block_number": "12"}, "digest_a": m.compute_hash(), "b": {"current_epoch": "12", "latest_block_number": "2"}, "digest_b": n.compute_hash()}));
+    }
     rep.outcome_n("pm:distinct-digest", seen.len() as u64);
     rep.add_extra("pm_messages", total);
     rep.add_extra("pm_distinct_digests", seen.len() as u64);
@@ -1209,9 +1218,8 @@ fn phi_block(block: u64, offsets: &[i64]) -> Report {
     if changed > 0 {
         rep.outcome_n("phi:HASH-CHANGED", changed);
     }
-    if inexact > 0 {
-        rep.nontrivial(&("phi-block-with-inexact-parse", block));
-    }
+    // every value here sits on or next to a rounding boundary: one ulp lost on the way flips the hash
+    rep.nontrivial(&("phi-block", block));
     rep
 }
 
@@ -1276,7 +1284,7 @@ pub fn run(ctx: &Ctx) -> ! {
     let mat = build_material();
     rep.assume("ancillary prover/verifier data cannot be present in this build: without the cargo feature future_snark both types are enums without variants, so only 'absent' is enumerated");
     rep.assume("timestamps are compared as 64-bit nanosecond counts (a leap-second representation equals the instant it denotes)");
-    rep.assume("a change of phi_f is required to change the hash only when it is a whole unit of U8F24 (2^-24); smaller changes are evaluated and reported as observations");
+    rep.assume("a change of phi_f is required to change the hash only when it is a whole unit of U8F24 (2^-24) or more and shows as a different 24-bit fraction under floor, ceiling, half-away and half-even rounding alike (two exact rounding ties one unit apart coincide under half-even); smaller changes are evaluated and reported as observations");
     rep.assume("re-serialisations that write integers as 5.0 / 5e0 are followed only where serde accepts them; string escaping variants and alternative key codecs are not demanded by the property (the latter are reported as observations)");
     rep.assume("honest protocol-message values are hex strings and decimal numbers; values that spell key names are outside the property (one such collision is shown as a detector self-test)");
     rep.assume("trusted: sha2, chrono, hex, serde_json as a JSON *writer* of the harness-side emitter (self-checked by reading the text back as a JSON value)");
